@@ -11,6 +11,7 @@ pub struct Migrator {
     string: String,
     line: u32,
     column: u32,
+    comments_only: bool,
 }
 
 impl Default for Migrator {
@@ -21,6 +22,7 @@ impl Default for Migrator {
             string: String::new(),
             line: 1,
             column: 1,
+            comments_only: false,
         }
     }
 }
@@ -78,7 +80,9 @@ impl Migrator {
     }
 
     fn token(&mut self, x: &VerylToken) {
-        self.push_token(&x.token);
+        if !self.comments_only {
+            self.push_token(&x.token);
+        }
 
         for x in &x.comments {
             self.push_token(x);
@@ -99,6 +103,11 @@ impl VerylWalker for Migrator {
     fn for_statement(&mut self, arg: &ForStatement) {
         self.r#for(&arg.r#for);
         self.identifier(&arg.identifier);
+        // The index type is dropped, the comments attached to its tokens are kept.
+        self.comments_only = true;
+        self.colon(&arg.colon);
+        self.scalar_type(&arg.scalar_type);
+        self.comments_only = false;
         self.r#in(&arg.r#in);
         if let Some(ref x) = arg.for_statement_opt {
             self.rev(&x.rev);
